@@ -196,7 +196,245 @@ pub fn run_pn(o: &Opts) {
     sink.finish(&o.stats, "C07pn: (pn, largest_acked, expected) triples biased to 2^7/8/15/16/23/24/31/32/62/63 ±1 on the real PacketNumber::encode → put_packet_number → take_pn_len → decode (and the in-memory decode), arbitrary in-memory decode inputs, parser inputs of every length; non-trivial = a case containing a triple inside the property's domain; distinct by transcript hash");
 }
 
-pub const RUNS: &[(&str, fn(&Opts))] = &[("C07pn", run_pn)];
+
+// ------------------------------------------------------------------------------------------------
+// C07j: guard life-cycle histories on a real ArcSentJournal<u32>
+
+/// Canonical dump of the journal parsed from its derived `Debug` output (no hook needed):
+/// `off=<offset> recs=<S|F<n>|R<n>|A<n>,…> q=<queue len> la=<largest acked>`
+fn dump_sent(j: &ArcSentJournal<u32>) -> String {
+    let d = format!("{:?}", j);
+    if d.contains("<locked>") { return "LOCKED".into(); }
+    let poisoned = d.contains("poisoned: true");
+    let num_after = |key: &str, from: usize| -> Option<u64> {
+        let p = d[from..].find(key)? + from + key.len();
+        let e = d[p..].find(|c: char| !c.is_ascii_digit()).map(|e| e + p).unwrap_or(d.len());
+        d[p..e].parse().ok()
+    };
+    // queue: [1, 2, 3]
+    let qs = d.find("queue: [").map(|p| p + "queue: [".len()).unwrap_or(0);
+    let qe = d[qs..].find(']').map(|e| e + qs).unwrap_or(qs);
+    let qlen = if d[qs..qe].trim().is_empty() { 0 } else { d[qs..qe].split(',').count() };
+    let sp = d.find("sent_packets:").unwrap_or(0);
+    let mut recs = vec![];
+    let mut i = sp;
+    let end = d.find("largest_acked_pktno").unwrap_or(d.len());
+    while i < end {
+        let rest = &d[i..end];
+        let cands = [("Skipped", 'S'), ("Flighting {", 'F'), ("Retransmitted {", 'R'), ("Acked {", 'A')];
+        let next = cands.iter().filter_map(|(k, c)| rest.find(k).map(|p| (p, *k, *c))).min_by_key(|x| x.0);
+        match next {
+            None => break,
+            Some((p, k, c)) => {
+                let at = i + p + k.len();
+                if c == 'S' { recs.push("S".to_string()); } else { recs.push(format!("{}{}", c, num_after("nframes: ", at).unwrap_or(u64::MAX))); }
+                i = at;
+            }
+        }
+    }
+    let off = num_after("offset: ", sp).unwrap_or(u64::MAX);
+    let la = num_after("largest_acked_pktno: ", 0).unwrap_or(u64::MAX);
+    format!("{}off={} recs={} q={} la={}", if poisoned { "POISONED " } else { "" }, off, if recs.is_empty() { "-".into() } else { recs.join(",") }, qlen, la)
+}
+
+#[derive(Clone, Copy, Debug, PartialEq)]
+enum JOp { Begin, Pn, Frame, Trivial, Build(u64, u64), BuildTrivial, Abandon, AckLargest(u64), Rotate, Acked(u64), Lost(u64), Tick(u64) }
+
+fn gen_history(rng: &mut Rng) -> Vec<JOp> {
+    let mut ops = vec![];
+    let mut in_guard = false;
+    let mut recorded = false;   // frame or trivial recorded in this guard
+    let mut frames = 0u64;
+    let mut next_pn = 0u64;     // generator's own estimate, only to aim acks at interesting numbers
+    let n = rng.range(4, 60);
+    let style = rng.below(4);   // 0: assembler-like only, 1..: everything the API allows
+    for _ in 0..n {
+        if in_guard {
+            let r = rng.below(20);
+            let op = match r {
+                0..=3 => JOp::Pn,
+                4..=8 => { recorded = true; frames += 1; JOp::Frame }
+                9..=10 => { recorded = true; JOp::Trivial }
+                11..=14 => {
+                    if !recorded && style == 0 { JOp::Abandon } else { JOp::Build(rng.range(0, 50), rng.range(0, 120)) }
+                }
+                15 => if style >= 2 || (recorded && frames == 0) { JOp::BuildTrivial } else { JOp::Pn },
+                16..=17 => if recorded && style <= 1 { JOp::Build(rng.range(0, 50), rng.range(0, 120)) } else { JOp::Abandon },
+                18 => JOp::Tick(rng.range(1, 60)),
+                _ => JOp::Pn,
+            };
+            match op {
+                JOp::Build(..) | JOp::BuildTrivial => { in_guard = false; if recorded { next_pn += 1; } }
+                JOp::Abandon => { in_guard = false; }
+                _ => {}
+            }
+            ops.push(op);
+        } else {
+            let near = |rng: &mut Rng, n: u64| -> u64 { match rng.below(6) { 0 => n, 1 => n + 1, 2 => n.saturating_sub(1), 3 => rng.below(n + 2), 4 => n + rng.below(4), _ => rng.below(n + 1) } };
+            let op = match rng.below(20) {
+                0..=10 => { in_guard = true; recorded = false; frames = 0; JOp::Begin }
+                11..=12 => JOp::AckLargest(near(rng, next_pn)),
+                13..=14 => JOp::Acked(near(rng, next_pn)),
+                15 => JOp::Lost(near(rng, next_pn)),
+                16..=17 => JOp::Rotate,
+                _ => JOp::Tick(rng.range(1, 80)),
+            };
+            ops.push(op);
+        }
+    }
+    if in_guard && rng.chance(1, 2) { ops.push(JOp::Abandon); }
+    ops
+}
+
+async fn journal_case(rng: &mut Rng, sink: &mut Sink, ops: &[JOp]) {
+    let journal: ArcSentJournal<u32> = ArcSentJournal::with_capacity(rng.range(0, 8) as usize);
+    let mut guard: Option<NewPacketGuard<'_, u32>> = None;
+    // monitor state (never consults the model)
+    let mut emitted: Vec<u64> = vec![];          // pn of every non-empty packet handed to build
+    let mut guard_pn: Option<u64> = None;        // first pn() seen in this guard
+    let mut recorded = false;
+    let mut frames_in_guard = 0u32;
+    let mut last_abandoned_pn: Option<u64> = None;
+    let mut known_la = 0u64;                     // largest ack accepted so far
+    let (mut n_abandon, mut n_built, mut n_rot) = (0, 0, 0);
+    let mut fid = 0u32;
+    for &op in ops {
+        match op {
+            JOp::Begin => {
+                sink.pending("begin");
+                guard = Some(journal.new_packet());
+                guard_pn = None; recorded = false; frames_in_guard = 0;
+                // every guard looks at its pn at least once (tx.rs does, in new_long/new_short)
+                let g = guard.as_ref().unwrap();
+                let obs = match catch(|| g.pn()) {
+                    Ok((pn, e)) => {
+                        guard_pn = Some(pn);
+                        if let Some(a) = last_abandoned_pn.take() { if a != pn { sink.monitor_fail("abandon_consumed_pn", &format!("guard abandoned at pn {} but the next guard got pn {}", a, pn)); } }
+                        if let Some(&l) = emitted.last() { if pn <= l { sink.monitor_fail("pn_not_increasing", &format!("new guard offers pn {} after a packet with pn {} was emitted", pn, l)); } }
+                        // receiver-side reconstruction for every expected position the property allows
+                        for exp in [known_la.min(pn), pn, (known_la + 1).min(pn), known_la.min(pn) + (pn - known_la.min(pn)) / 2] {
+                            let mut b = BytesMut::new(); b.put_packet_number(e);
+                            let d = catch(|| take_pn_len(e.size() as u8)(&b[..]).map(|(_, p)| p.decode(exp)));
+                            if !matches!(d, Ok(Ok(v)) if v == pn) { sink.monitor_fail("guard_pn_wire_roundtrip", &format!("pn {} la {} exp {}: {:?}", pn, known_la, exp, d.map(|r| r.ok()))); }
+                        }
+                        format!("pn={} enc={}", pn, show(e))
+                    }
+                    Err(m) => { sink.monitor_fail(&format!("guard_pn_panic:{}", site(&m)), "NewPacketGuard::pn() panicked"); site(&m) }
+                };
+                sink.line("begin", &obs);
+            }
+            JOp::Pn => {
+                let g = guard.as_ref().unwrap();
+                let obs = match catch(|| g.pn()) {
+                    Ok((pn, e)) => {
+                        if guard_pn.is_some_and(|p| p != pn) { sink.monitor_fail("pn_unstable_within_guard", &format!("same guard returned pn {:?} then {}", guard_pn, pn)); }
+                        format!("pn={} enc={}", pn, show(e))
+                    }
+                    Err(m) => site(&m),
+                };
+                sink.line("pn", &obs);
+            }
+            JOp::Frame => { fid += 1; guard.as_mut().unwrap().record_frame(fid); recorded = true; frames_in_guard += 1; sink.line("frame", "ok"); }
+            JOp::Trivial => { guard.as_mut().unwrap().record_trivial(); recorded = true; sink.line("trivial", "ok"); }
+            JOp::Build(rt, et) => {
+                let g = guard.take().unwrap();
+                let opn = format!("build {} {}", rt, et);
+                sink.pending(&opn);
+                let r = catch(move || g.build_with_time(Duration::from_millis(rt), Duration::from_millis(et)));
+                match r {
+                    Ok(()) => {
+                        n_built += 1;
+                        if recorded {
+                            let pn = guard_pn.unwrap();
+                            if let Some(&l) = emitted.last() { if pn <= l { sink.monitor_fail("pn_reused", &format!("packet emitted with pn {} after pn {}", pn, l)); } }
+                            emitted.push(pn);
+                        } else { sink.branch("build:empty(not counted as emitted)"); }
+                        sink.line(&opn, &format!("built {}", dump_sent(&journal)));
+                    }
+                    Err(m) => { sink.line(&opn, &site(&m)); return; }
+                }
+            }
+            JOp::BuildTrivial => {
+                let g = guard.take().unwrap();
+                sink.pending("build_trivial");
+                let r = catch(move || g.build_trivial());
+                match r {
+                    Ok(()) => {
+                        n_built += 1;
+                        let pn = guard_pn.unwrap();
+                        if let Some(&l) = emitted.last() { if pn <= l { sink.monitor_fail("pn_reused", &format!("packet emitted with pn {} after pn {}", pn, l)); } }
+                        emitted.push(pn);
+                        sink.line("build_trivial", &format!("built {}", dump_sent(&journal)));
+                    }
+                    Err(m) => { sink.branch("build_trivial:assert"); sink.line("build_trivial", &format!("{} {}", site(&m), dump_sent(&journal))); return; }
+                }
+            }
+            JOp::Abandon => {
+                drop(guard.take());
+                n_abandon += 1;
+                last_abandoned_pn = guard_pn;
+                sink.branch(if frames_in_guard > 0 { "abandon:after_record_frame" } else if recorded { "abandon:after_trivial" } else { "abandon:clean" });
+                sink.line("abandon", &format!("dropped {}", dump_sent(&journal)));
+            }
+            JOp::AckLargest(n) => {
+                let f = AckFrame::new(VarInt::from_u64(n).unwrap(), VarInt::from_u32(0), VarInt::from_u32(0), vec![], None);
+                let r = { let mut rot = journal.rotate(); rot.update_largest(&f) };
+                n_rot += 1;
+                if r.is_ok() && n > known_la { known_la = n; }
+                sink.branch(if r.is_ok() { "acklargest:ok" } else { "acklargest:err" });
+                sink.line(&format!("acklargest {}", n), &format!("{} {}", if r.is_ok() { "ok" } else { "err" }, dump_sent(&journal)));
+            }
+            JOp::Rotate => { drop(journal.rotate()); n_rot += 1; sink.line("rotate", &dump_sent(&journal)); }
+            JOp::Acked(pn) => {
+                let k = { let mut rot = journal.rotate(); rot.on_packet_acked(pn).count() };
+                n_rot += 1;
+                sink.line(&format!("acked {}", pn), &format!("n={} {}", k, dump_sent(&journal)));
+            }
+            JOp::Lost(pn) => {
+                let k = { let mut rot = journal.rotate(); rot.may_loss_packet(pn).count() };
+                n_rot += 1;
+                sink.line(&format!("lost {}", pn), &format!("n={} {}", k, dump_sent(&journal)));
+            }
+            JOp::Tick(ms) => { tokio::time::advance(Duration::from_millis(ms)).await; sink.line(&format!("tick {}", ms), "ok"); }
+        }
+    }
+    drop(guard);
+    if n_abandon > 0 && n_built >= 2 && n_rot > 0 { sink.nontrivial(); }
+}
+
+pub fn run_j(o: &Opts) {
+    let mut sink = Sink::new_with_stats(&o.out, &o.stats);
+    let rt = tokio::runtime::Builder::new_current_thread().enable_time().start_paused(true).build().unwrap();
+    rt.block_on(async {
+        // fixed corpus: the histories the theorems' witnesses use
+        let fixed: Vec<Vec<JOp>> = vec![
+            vec![JOp::Begin, JOp::Frame, JOp::Build(10, 30), JOp::Begin, JOp::Abandon, JOp::Begin, JOp::Trivial, JOp::Build(10, 30), JOp::AckLargest(1), JOp::Begin, JOp::Pn, JOp::Frame, JOp::Pn, JOp::Build(5, 5), JOp::Acked(0), JOp::Rotate],
+            vec![JOp::Begin, JOp::Build(1, 1), JOp::Begin, JOp::Trivial, JOp::Build(1, 1)],            // empty build does not consume the pn
+            vec![JOp::Begin, JOp::Frame, JOp::Abandon, JOp::Begin, JOp::Frame, JOp::Build(1, 1)],      // abandon after record leaks a frame
+            vec![JOp::AckLargest(0), JOp::AckLargest(1), JOp::Begin, JOp::Pn, JOp::Frame, JOp::Build(1, 1)], // ACK of the next unsent pn is accepted
+            vec![JOp::Begin, JOp::Frame, JOp::BuildTrivial],
+            vec![JOp::Begin, JOp::BuildTrivial],
+            vec![JOp::Begin, JOp::Frame, JOp::Build(5, 10), JOp::Lost(0), JOp::Tick(11), JOp::Rotate, JOp::Begin, JOp::Pn, JOp::Abandon],
+        ];
+        let nfixed = fixed.len() as u64;
+        for (i, h) in fixed.iter().enumerate() {
+            if let Some(k) = o.only_case { if k != i as u64 { continue; } }
+            let mut rng = Rng::new(o.seed, i as u64);
+            sink.case(&format!("{}", i));
+            journal_case(&mut rng, &mut sink, h).await;
+        }
+        for i in nfixed..o.cases.max(nfixed) {
+            if let Some(k) = o.only_case { if k != i { continue; } }
+            let mut rng = Rng::new(o.seed, i);
+            sink.case(&format!("{}", i));
+            let h = gen_history(&mut rng);
+            journal_case(&mut rng, &mut sink, &h).await;
+        }
+    });
+    sink.finish(&o.stats, "C07j: random life-cycle histories (begin / pn / frame / trivial / build / build_trivial / abandon, interleaved with acklargest / acked / lost / rotate / tick) on a real ArcSentJournal<u32> under tokio paused time, state read from Debug output; non-trivial = at least one abandoned guard, two built packets and one rotate-guard operation; distinct by transcript hash");
+}
+
+pub const RUNS: &[(&str, fn(&Opts))] = &[("C07pn", run_pn), ("C07j", run_j)];
 
 #[allow(dead_code)]
-fn _unused() { let _ = (unhex("-"), Duration::ZERO); let _: Option<(ArcRcvdJournal, ArcSentJournal<u32>, InvalidPacketNumber, VarInt)> = None; let _: Option<AckFrame> = None; let _: Option<NewPacketGuard<'static, u32>> = None; }
+fn _unused() { let _ = unhex("-"); let _: Option<(ArcRcvdJournal, InvalidPacketNumber)> = None; }
